@@ -190,6 +190,21 @@ def run(ctx):
                         field.validated(cell)
                     except errors.FieldValueError:
                         pass
+    if ctx.mine(2):
+        # a Decimal cell written with thousands separators: the separators are characters of the cell
+        for kind in ("delimited", "fixed"):
+            grouped = c02.make_format(kind, ".", ",", None)
+            for empty in (False, True):
+                for length_text in (("5", "6", "7") if kind == "fixed" else ("...5", "4", "6...", "5...6", "")):
+                    field = c02.construct(ctx, "C03", "Decimal", empty, length_text, "", grouped)
+                    if field is None:
+                        continue
+                    ctx.count("declarations.decimal-with-thousands-separator-under-a-length")
+                    for cell in ("12,345", "1,234", "1,23", "12345", "1234", "1,234.5", "123"):
+                        try:
+                            field.validated(cell)
+                        except errors.FieldValueError:
+                            pass
     ctx.exhaustive = True
     ctx.note("the product types x flags x length declarations x allowed ranges x formats x guard cells is enumerated completely in both tiers; thorough drives every delimited declaration end-to-end as well")
 
